@@ -102,6 +102,29 @@ func RunShard(c *Ctx, progress *os.File) {
 			}
 		}
 	}
+	// The first cases of every phase ran in a young process; run them once more now that the process has seen
+	// everything else (whatever the library keeps process-wide - memos, pools, caches, lazily initialised
+	// tables - is in a different state), in reverse order.  The same oracles judge them.
+	for pi := len(p.Phases) - 1; pi >= 0; pi-- {
+		ph := &p.Phases[pi]
+		if ph.Solo || p.Race {
+			continue
+		}
+		n := ph.N(c.Thorough)
+		var mine []int
+		for i := 0; i < n && len(mine) < 25; i++ {
+			if i%c.NShards == c.Shard {
+				mine = append(mine, i)
+			}
+		}
+		for k := len(mine) - 1; k >= 0; k-- {
+			RunCase(c, pi, mine[k])
+			c.Rec.Count("cases_run_again_at_the_end_of_the_process", 1)
+			if c.Rec.Stop() {
+				return
+			}
+		}
+	}
 }
 
 // RunCase runs one case under the panic guard.
